@@ -56,6 +56,12 @@ type Arg struct {
 	Text  string `json:"text"`
 	Type  string `json:"type,omitempty"`
 	Why   string `json:"why"`
+	// Producer: for an error argument, the kind of call whose result it is (decided by types where
+	// possible): conn:<tcp|any>:<read|write|close|file|set|rawcontrol>, fileconn, syscall, accept,
+	// dial-covert, connect-client, geoip, transport, proxy-header, reviewed, unknown.
+	// For a Sanitised argument it is the producer of the error that was passed to generalizeErr.
+	Producer string `json:"producer,omitempty"`
+	ProdWhy  string `json:"producer_why,omitempty"`
 }
 type Site struct {
 	File   string `json:"file"`
@@ -123,7 +129,7 @@ var internalErr = map[string]string{
 	"executeHTTPRequest": "peer station URL, not a client address", "ListenTCP": "station's own listen address", "registerForDetector": "redis errors",
 	"NewRegistration": "phantom selection errors", "UpdateFromConfig": "configuration", "FromString": "subnet text",
 	"register": "tracking errors naming the registration id only", "AcceptTCP": "listener error: carries the station's own listen address",
-	"getOriginalDst": "bare errno from getsockopt", "SetNonblock": "bare errno from fcntl",
+	
 	"Publish": "redis client errors (redis server address)", "Ping": "redis client errors (redis server address)", "Result": "redis client errors",
 	"NewSocket": "zmq set-up", "Connect_": "", "Bind": "zmq endpoint", "SetSubscribe": "zmq", "RecvBytes": "zmq receive", "SendBytes": "zmq send",
 	"ServerAuthCurve": "zmq auth", "AuthStart": "zmq auth", "Open": "file path errors", "ReadFile": "file path errors", "ReadAll": "csv/file errors",
@@ -132,9 +138,229 @@ var internalErr = map[string]string{
 }
 
 type fnCtx struct {
-	body *ast.BlockStmt
-	name string
-	info *types.Info
+	body  *ast.BlockStmt
+	name  string
+	info  *types.Info
+	decls map[string]*ast.FuncDecl // functions of the same package (for the producer of a helper's error)
+}
+
+// ---------------------------------------------------------------- producers
+
+var concreteNetConn = map[string]bool{"*net.TCPConn": true, "*net.UDPConn": true, "*net.IPConn": true, "*net.UnixConn": true,
+	"net.TCPConn": true, "net.UDPConn": true}
+
+func hasMethods(t types.Type, names ...string) bool {
+	if t == nil {
+		return false
+	}
+	ms := types.NewMethodSet(t)
+	if _, isPtr := t.(*types.Pointer); !isPtr {
+		if _, isIface := t.Underlying().(*types.Interface); !isIface {
+			ms = types.NewMethodSet(types.NewPointer(t))
+		}
+	}
+	for _, n := range names {
+		found := false
+		for i := 0; i < ms.Len(); i++ {
+			if ms.At(i).Obj().Name() == n {
+				found = true
+				break
+			}
+		}
+		if !found {
+			return false
+		}
+	}
+	return true
+}
+
+// connKind: "tcp" for package net's concrete connections, "any" for every other value with the
+// net.Conn / net.PacketConn method set, "" otherwise
+func connKind(t types.Type) string {
+	if t == nil {
+		return ""
+	}
+	if concreteNetConn[typeString(t)] {
+		return "tcp"
+	}
+	if hasMethods(t, "RemoteAddr", "Read", "Write", "Close", "SetDeadline") || hasMethods(t, "ReadFrom", "WriteTo", "LocalAddr", "Close", "SetDeadline") {
+		return "any"
+	}
+	return ""
+}
+
+var connMethodOp = map[string]string{"Read": "read", "ReadFrom": "read", "ReadFromUDP": "read", "ReadMsgUDP": "read", "Write": "write",
+	"WriteTo": "write", "WriteToUDP": "write", "WriteMsgUDP": "write", "Close": "close", "CloseRead": "close", "CloseWrite": "close",
+	"File": "file", "SyscallConn": "rawcontrol",
+	"SetDeadline": "set", "SetReadDeadline": "set", "SetWriteDeadline": "set", "SetLinger": "set", "SetNoDelay": "set", "SetKeepAlive": "set",
+	"SetKeepAlivePeriod": "set", "SetReadBuffer": "set", "SetWriteBuffer": "set", "SetKeepAliveConfig": "set"}
+
+// mayEmbed: can an error of this producer kind carry the client address?  (mirrors addr_free_producer of the model,
+// which is what decides)
+func mayEmbed(p string) bool {
+	switch p {
+	case "conn:tcp:set", "conn:tcp:rawcontrol", "syscall", "accept", "dial-covert", "reviewed":
+		return false
+	}
+	return true
+}
+
+// producerOfCall: the producer kind of the error result of a call expression
+func (f *fnCtx) producerOfCall(rhs ast.Expr, depth int) (string, string) {
+	c, ok := rhs.(*ast.CallExpr)
+	if !ok {
+		// a type assertion / conversion / plain value: not a call
+		return "unknown", "not a call: " + src(rhs)
+	}
+	cn := calleeName(c)
+	cp := f.calleePkg(c)
+	if f.info != nil {
+		if sel, ok := c.Fun.(*ast.SelectorExpr); ok {
+			if s, ok := f.info.Selections[sel]; ok && s.Kind() == types.MethodVal {
+				recv := s.Recv()
+				if k := connKind(recv); k != "" {
+					if op, ok := connMethodOp[cn]; ok {
+						return "conn:" + k + ":" + op, cn + " on " + typeString(recv)
+					}
+				}
+				if typeString(recv) == "syscall.RawConn" {
+					return "conn:tcp:rawcontrol", cn + " on syscall.RawConn"
+				}
+				if hasMethods(recv, "Accept", "Addr", "Close") && strings.HasPrefix(cn, "Accept") {
+					return "accept", cn + " on " + typeString(recv)
+				}
+			}
+		}
+		switch cp {
+		case "syscall", "golang.org/x/sys/unix":
+			return "syscall", cp + "." + cn
+		case "io":
+			k := ""
+			for _, a := range c.Args {
+				if tv, ok := f.info.Types[a]; ok {
+					if ck := connKind(tv.Type); ck != "" && (k == "" || ck == "any") {
+						k = ck
+					}
+				}
+			}
+			if k != "" {
+				return "conn:" + k + ":read", "io." + cn + " over a connection"
+			}
+		case "net":
+			switch {
+			case cn == "FileConn" || cn == "FilePacketConn" || cn == "FileListener":
+				return "fileconn", "net." + cn
+			case strings.HasPrefix(cn, "Dial"):
+				as := ""
+				for _, a := range c.Args {
+					as += src(a) + " "
+				}
+				if notClientAddr.MatchString(as) && !addrExpr.MatchString(as) {
+					return "dial-covert", "net." + cn + "(" + strings.TrimSpace(as) + ")"
+				}
+				return "connect-client", "net." + cn + " to an address that is not known to be the covert's"
+			case strings.HasPrefix(cn, "Listen"):
+				return "reviewed", "net." + cn + ": the station's own listen address"
+			}
+		}
+	}
+	switch cn {
+	case "CC", "ASN":
+		return "geoip", cn
+	case "WrapConnection":
+		return "transport", cn
+	case "Connect":
+		if reviewedPkgs[cp] == "" {
+			return "connect-client", cn
+		}
+	case "writePROXYHeader":
+		return "proxy-header", cn
+	}
+	// a helper of the same package whose every error result comes from raw system calls
+	if fd := f.decls[cn]; fd != nil && depth < 3 {
+		if _, isSel := c.Fun.(*ast.SelectorExpr); !isSel {
+			if k, why := f.producerOfFunc(fd, depth+1); k == "syscall" {
+				return k, cn + ": " + why
+			}
+		}
+	}
+	if reviewedPkgs[cp] != "" {
+		return "reviewed", cp + "." + cn + ": " + reviewedPkgs[cp]
+	}
+	if netIO[cn] {
+		return "unknown", cn + " (network call on a value that is not a connection by type)"
+	}
+	if internalErr[cn] != "" {
+		return "reviewed", cn + ": " + internalErr[cn]
+	}
+	return "unknown", "unreviewed producer " + src(c.Fun)
+}
+
+// producerOfFunc: "syscall" iff every error the function returns is the result of a raw system call
+func (f *fnCtx) producerOfFunc(fd *ast.FuncDecl, depth int) (string, string) {
+	g := &fnCtx{body: fd.Body, name: fd.Name.Name, info: f.info, decls: f.decls}
+	kinds := map[string]bool{}
+	n := 0
+	ast.Inspect(fd.Body, func(m ast.Node) bool {
+		if _, ok := m.(*ast.FuncLit); ok {
+			return false
+		}
+		r, ok := m.(*ast.ReturnStmt)
+		if !ok || len(r.Results) == 0 {
+			return true
+		}
+		last := r.Results[len(r.Results)-1]
+		if k, _ := g.kindOf(last); k != "error" {
+			if id, ok := last.(*ast.Ident); !ok || id.Name != "nil" {
+				kinds["unknown"] = true
+			}
+			return true
+		}
+		n++
+		switch x := last.(type) {
+		case *ast.Ident:
+			k, _ := g.producerOfIdent(x.Name, r.Pos(), depth)
+			kinds[k] = true
+		case *ast.CallExpr:
+			k, _ := g.producerOfCall(x, depth)
+			kinds[k] = true
+		default:
+			kinds["unknown"] = true
+		}
+		return true
+	})
+	if n > 0 && len(kinds) == 1 && kinds["syscall"] {
+		return "syscall", "every error it returns is the result of a raw system call"
+	}
+	return "unknown", ""
+}
+
+// producerOfIdent: follows the most recent assignment of an error variable (through generalizeErr)
+func (f *fnCtx) producerOfIdent(name string, pos token.Pos, depth int) (string, string) {
+	rhs, at := f.lastAssign(name, pos)
+	if rhs == nil {
+		return "unknown", name + ": error value of unknown origin (parameter, field or range variable)"
+	}
+	if calleeName(rhs) == "generalizeErr" && depth < 4 {
+		c := rhs.(*ast.CallExpr)
+		if len(c.Args) == 1 {
+			return f.producerOfExpr(c.Args[0], at, depth+1)
+		}
+	}
+	return f.producerOfCall(rhs, depth)
+}
+
+func (f *fnCtx) producerOfExpr(e ast.Expr, pos token.Pos, depth int) (string, string) {
+	switch x := e.(type) {
+	case *ast.Ident:
+		return f.producerOfIdent(x.Name, pos, depth)
+	case *ast.CallExpr:
+		if calleeName(x) == "generalizeErr" && len(x.Args) == 1 {
+			return f.producerOfExpr(x.Args[0], pos, depth+1)
+		}
+		return f.producerOfCall(x, depth)
+	}
+	return "unknown", "error-typed expression " + src(e)
 }
 
 func (f *fnCtx) lastAssign(name string, pos token.Pos) (rhs ast.Expr, at token.Pos) {
@@ -320,6 +546,24 @@ func (f *fnCtx) classifyErrOrigin(name string, pos token.Pos, a *Arg) bool {
 var placeholderFuncs = map[string]bool{}
 
 func (f *fnCtx) classify(e ast.Expr, pos token.Pos, depth int) Arg {
+	a := f.classify0(e, pos, depth)
+	switch a.Class {
+	case "Sanitised":
+		a.Producer, a.ProdWhy = f.producerOfExpr(e, pos, 0)
+	case "RawErr", "InternalErr":
+		a.Producer, a.ProdWhy = f.producerOfExpr(e, pos, 0)
+		// one rule: a raw error argument is address-free iff its producer is
+		if mayEmbed(a.Producer) {
+			a.Class = "RawErr"
+		} else {
+			a.Class = "InternalErr"
+		}
+		a.Why += " [producer " + a.Producer + ": " + a.ProdWhy + "]"
+	}
+	return a
+}
+
+func (f *fnCtx) classify0(e ast.Expr, pos token.Pos, depth int) Arg {
 	t := src(e)
 	kind, ts := f.kindOf(e)
 	a := Arg{Text: t, Type: ts}
@@ -513,13 +757,13 @@ func (f *fnCtx) logCall(c *ast.CallExpr) (recv, method, level string, ok bool) {
 	return
 }
 
-func walkFile(rel string, f *ast.File, info *types.Info, out *Out) {
+func walkFile(rel string, f *ast.File, info *types.Info, out *Out, decls map[string]*ast.FuncDecl) {
 	for _, d := range f.Decls {
 		fd, ok := d.(*ast.FuncDecl)
 		if !ok || fd.Body == nil {
 			continue
 		}
-		ctx := &fnCtx{body: fd.Body, name: fd.Name.Name, info: info}
+		ctx := &fnCtx{body: fd.Body, name: fd.Name.Name, info: info, decls: decls}
 		ast.Inspect(fd.Body, func(n ast.Node) bool {
 			c, ok := n.(*ast.CallExpr)
 			if !ok {
@@ -902,8 +1146,16 @@ func main() {
 		}
 		rel, _ := filepath.Rel(root, pp.p.dir)
 		out.Packages = append(out.Packages, rel)
+		decls := map[string]*ast.FuncDecl{}
+		for _, f := range pp.files {
+			for _, d := range f.Decls {
+				if fd, ok := d.(*ast.FuncDecl); ok && fd.Body != nil && fd.Recv == nil {
+					decls[fd.Name.Name] = fd
+				}
+			}
+		}
 		for i, f := range pp.files {
-			walkFile(pp.rels[i], f, info, &out)
+			walkFile(pp.rels[i], f, info, &out, decls)
 		}
 	}
 	if err := levelOrder(root, &out); err != nil {
